@@ -30,7 +30,7 @@ func dsSame(e *eventbus.StoredEvent, r dsRec) bool {
 	return e.Type == r.typ && string(e.Data) == string(r.data) && e.Timestamp.Equal(r.ts)
 }
 
-//verif:entry property=C10 tier=both bounds="durable-streams store over the real client library and a model server (optionally cutting read responses short): log length n<=N, chain of R reads with limits in [-1,N+1], each resumed from the returned next offset; offsets returned by Append increase" cover="chain-done" N_quick=3 N_thorough=4 R_quick=2 R_thorough=3
+//verif:entry property=C10 tier=both bounds="durable-streams store over the real client library and a model server (optionally cutting read responses short): log length n<=N, chain of R reads with limits in [-1,N+1], each resumed from the returned next offset; offsets returned by Append increase" cover="chain-done" conformance=off N_quick=3 N_thorough=4 R_quick=2 R_thorough=3
 func harnessC10DurableReadChain() {
 	N := vParam("N", 3)
 	R := vParam("R", 2)
@@ -75,7 +75,7 @@ func harnessC10DurableReadChain() {
 	vCover("chain-done")
 }
 
-//verif:entry property=C11 tier=both bounds="bus.Replay over the durable-streams store (paged path, real client library, model server optionally cutting responses short, lenient or strict about offsets it did not issue): log length n<=N, replay batch size b in [-1,N+1], optional failing read request" cover="nil-complete" N_quick=3 N_thorough=4
+//verif:entry property=C11 tier=both bounds="bus.Replay over the durable-streams store (paged path, real client library, model server optionally cutting responses short, lenient or strict about offsets it did not issue): log length n<=N, replay batch size b in [-1,N+1], optional failing read request" cover="nil-complete" conformance=off N_quick=3 N_thorough=4
 func harnessC11DurableReplay() {
 	N := vParam("N", 3)
 	vmDSChunked = vBool()
